@@ -11,10 +11,15 @@ pub type Pq<H> = PriorityQueue<Item, Pr, H>;
 pub type Dq<H> = DoublePriorityQueue<Item, Pr, H>;
 
 /// Build the map of a pre-state from its entries (distinct keys, slot order).
-pub fn mk_map<H: BuildHasher + Default>(entries: Vec<(Item, Pr)>, cap: usize) -> Map<H> {
+pub fn mk_map<H: BuildHasher + Default + crate::types::HashKind>(entries: Vec<(Item, Pr)>, cap: usize) -> Map<H> {
     #[cfg(feature = "modelmap")]
     {
         let _ = cap;
+        if H::PER_INSTANCE {
+            unsafe {
+                indexmap::map::raw_entry_v1::MODEL_CHECK_RAW_HASH = true;
+            }
+        }
         Map::model_from_entries(entries, H::default())
     }
     #[cfg(not(feature = "modelmap"))]
@@ -113,7 +118,7 @@ pub type CoreIntoIter = priority_queue::core_iterators::IntoIter<Item, Pr>;
 pub type CoreDrain<'a> = priority_queue::core_iterators::Drain<'a, Item, Pr>;
 
 pub trait Q: Sized + Clone {
-    type H: BuildHasher + Default + Clone;
+    type H: BuildHasher + Default + Clone + crate::types::HashKind;
     const DOUBLE: bool;
     type IterMut<'a>: MutIt<'a>
     where
@@ -336,7 +341,7 @@ macro_rules! common_impl {
     };
 }
 
-impl<H: BuildHasher + Default + Clone> Q for Pq<H> {
+impl<H: BuildHasher + Default + Clone + crate::types::HashKind> Q for Pq<H> {
     type H = H;
     const DOUBLE: bool = false;
     type IterMut<'a> = priority_queue::priority_queue::iterators::IterMut<'a, Item, Pr, H> where Self: 'a;
@@ -377,7 +382,7 @@ impl<H: BuildHasher + Default + Clone> Q for Pq<H> {
     }
 }
 
-impl<H: BuildHasher + Default + Clone> Q for Dq<H> {
+impl<H: BuildHasher + Default + Clone + crate::types::HashKind> Q for Dq<H> {
     type H = H;
     const DOUBLE: bool = true;
     type IterMut<'a> = priority_queue::double_priority_queue::iterators::IterMut<'a, Item, Pr, H> where Self: 'a;
